@@ -1,17 +1,16 @@
 SPECIFICATION Spec
 CONSTANTS
   NNames = 2
-  Kinds = {"num", "obj", "struct", "ptr"}
+  Kinds = {"obj", "ptr"}
   MaxLvl = 2
   MaxVer = 2
   NVals = 0
   NV = 2
   FirstEdits = 0
   MaxEdits = 0
-  Opts = {"dict", "py"}
+  Opts = {"dict"}
   Mode = "pairs"
   CksMode = "names"
   Dump = FALSE
 INVARIANT ImplMeetsDemand
-INVARIANT NoMisassign
 CHECK_DEADLOCK FALSE
